@@ -95,7 +95,7 @@ def mk_operand(o):
 def run_case(c):
     import quantity
     import quantity.predefined as P
-    from quantity import Unit
+    from quantity import Quantity, Unit
     from adapters.calc import mk_amount
     ev = dict(c)
     op = c['op']
@@ -109,6 +109,33 @@ def run_case(c):
             ev['inmodel'] = True
             if cls.ref_unit is not None:
                 v = vec((1 * u).convert(cls.ref_unit).amount)
+                ev['vec'] = dict(sg=v['sg'], ex=v['ex'])
+                ev['inmodel'] = v['inmodel']
+        elif op == 'redecl':
+            # an attempt to declare the symbol of a predefined unit once more (another scale) is rejected and changes
+            # nothing: the type still lists the very same unit with its documented scale
+            u = Unit(actual(c['s']))
+            cls = u.qty_cls
+            ev['t'] = cls.__name__
+            ev['rejected'] = False
+            try:
+                if cls.ref_unit is not None and cls.ref_unit is not u:
+                    cls.new_unit(u.symbol, 'again', mk_amount([7, 3], 'frac') * cls.ref_unit)
+                else:
+                    cls.new_unit(u.symbol, 'again')
+            except ValueError:
+                ev['rejected'] = True
+            except Exception:
+                pass
+            listed = [x for x in cls.units() if x.symbol == u.symbol]
+            ev['same'] = bool(Unit(u.symbol) is u and cls.get_unit_by_symbol(u.symbol) is u and u.symbol in cls
+                              and len(listed) == 1 and listed[0] is u and type(Quantity('1 ' + u.symbol)) is cls
+                              and Quantity('1 ' + u.symbol).unit is u)
+            ev['vec'] = dict(sg=1, ex=[0] * len(PRIMES))
+            ev['inmodel'] = True
+            if cls.ref_unit is not None:
+                got = cls.get_unit_by_symbol(u.symbol)
+                v = vec((1 * got).convert(cls.ref_unit).amount)
                 ev['vec'] = dict(sg=v['sg'], ex=v['ex'])
                 ev['inmodel'] = v['inmodel']
         elif op == 'count':
